@@ -66,6 +66,7 @@ class Site:
         self.detail = detail
         self.discharge = None
 
+    facts = None
     owner = None   # set by run_census: facts.owner_root (sites of an inlined helper's closures belong to the caller)
 
     def root(self):
@@ -74,11 +75,42 @@ class Site:
             p = Site.owner(p)
         return strip_generics(p.split("::{closure")[0])
 
-    def key(self):
-        return "%s/%s/%s" % (self.root(), self.kind, self.producer)
+    def key(self, root=None):
+        return norm_key("%s/%s/%s" % (root or self.root(), self.kind, self.producer))
+
+    def roots(self):
+        """the function the site is accounted to, then - for a helper shared by several callers - each of them"""
+        out = [self.root()]
+        facts = Site.facts
+        if facts is not None:
+            todo = [self.fn.path.split("::{closure")[0]]
+            seen = set()
+            while todo:
+                h = todo.pop()
+                if h in seen:
+                    continue
+                seen.add(h)
+                for c in (facts.inlined.get(h) or []):
+                    r = strip_generics(c.split("::{closure")[0])
+                    if r not in out:
+                        out.append(r)
+                    todo.append(c.split("::{closure")[0])
+        return out
 
     def where(self):
         return "%s:%s" % (self.fn.file, self.line)
+
+
+_WRAP = re.compile(r"\b(?:upvar|param|var)\(([^()]*)\)")
+
+
+def norm_key(k):
+    """`upvar(x)`, `param(x)` and `var(x)` name the same thing wherever the site sits (closure or body)"""
+    prev = None
+    while prev != k:
+        prev = k
+        k = _WRAP.sub(r"\1", k)
+    return k
 
 
 def macro_kind(mac):
@@ -358,7 +390,7 @@ def load_triage(name):
     rows = json.load(open(p))
     table = {}
     for r in rows:
-        table[r["key"]] = r
+        table[norm_key(r["key"])] = r
     return table
 
 
@@ -370,6 +402,7 @@ def run_census(facts, res, rid, crates, roots, triage, class_rules, prop, findin
     fns = [facts.fns[p] for p in sorted(reach) if p in facts.fns and facts.fns[p].crate in crates and facts.fns[p].has_body()
            and not facts.fns[p].d.get("inlined_into")]
     Site.owner = staticmethod(facts.owner_root)
+    Site.facts = facts
     stats = {"functions_reachable": len(fns), "sites": 0, "class": 0, "mechanical": 0, "invariant": 0, "finding": 0,
              "new": 0}
     used = set()
@@ -380,7 +413,10 @@ def run_census(facts, res, rid, crates, roots, triage, class_rules, prop, findin
         for s in sites_of(f, facts):
             stats["sites"] += 1
             reason = None
-            for cr in class_rules:
+            if s.kind == "index" and s.detail is not None and s.detail.get("k") == "call" and \
+                    "RangeFull" in " ".join(s.detail["f"].get("gargs") or []) + (s.detail["f"].get("inst") or ""):
+                reason = "x[..] (Index<RangeFull>) cannot fail"
+            for cr in ([] if reason else class_rules):
                 reason = cr(s)
                 if reason:
                     break
@@ -414,29 +450,40 @@ def run_census(facts, res, rid, crates, roots, triage, class_rules, prop, findin
                 by_key.setdefault(("mech", q.split(":")[0]), []).append(s)
                 continue
             pending.setdefault((s.root(), s.kind), []).append(s)
+    # sites of a helper that several callers share are accounted to the first caller whose triage rows know them
+    regrouped = {}
     for (root, kind), ss in sorted(pending.items()):
+        for s in ss:
+            chosen = root
+            for cand in s.roots():
+                if s.key(cand) in triage or norm_key("%s/%s/*" % (cand, kind)) in triage:
+                    chosen = cand
+                    break
+            regrouped.setdefault((chosen, kind), []).append(s)
+    for (root, kind), ss in sorted(regrouped.items()):
         rest = []
         # exact rows first (groups with mixed statuses are triaged site by site)
         for s in ss:
-            row = triage.get(s.key())
+            k = s.key(root)
+            row = triage.get(k)
             if row is None:
                 rest.append(s)
                 continue
-            used.add(s.key())
+            used.add(k)
             if row["status"] == "finding":
                 stats["finding"] += 1
-                res.violation(row.get("rule", rid), row.get("finding_key", s.key()), row["reason"], s.where())
+                res.violation(row.get("rule", rid), row.get("finding_key", k), row["reason"], s.where())
             else:
                 stats["invariant"] += 1
-                res.ok(rid, s.key(), s.where(), "%s: %s" % (row["status"], row["reason"]))
+                res.ok(rid, k, s.where(), "%s: %s" % (row["status"], row["reason"]))
         if not rest:
             continue
-        gk = "%s/%s/*" % (root, kind)
+        gk = norm_key("%s/%s/*" % (root, kind))
         row = triage.get(gk)
         if row is None:
             for s in rest:
                 stats["new"] += 1
-                res.violation(rid, s.key(), "undischarged panic-capable construct (%s%s) in %s: not guarded locally and not in the "
+                res.violation(rid, s.key(root), "undischarged panic-capable construct (%s%s) in %s: not guarded locally and not in the "
                               "triage table" % (s.kind, (" on " + s.producer) if s.producer else "", s.fn.path), s.where())
             continue
         used.add(gk)
